@@ -12,6 +12,7 @@ pub mod c16;
 pub mod c17;
 pub mod c18;
 pub mod families;
+pub mod observers;
 pub mod poison;
 pub mod sanit;
 
